@@ -173,12 +173,31 @@ int vf_clock_gettime(clockid_t c, struct timespec *ts) {
     return 0;
 }
 /* thread-local storage per simulated thread: one key (the library creates exactly one) */
-static void *vf_tls[VF_NTHREADS];
-static bool vf_once_done;
-int vf_pthread_once(pthread_once_t *o, void (*fn)(void)) { (void)o; if (!vf_once_done) { vf_once_done = true; fn(); } return 0; }
-int vf_pthread_key_create(pthread_key_t *k, void (*d)(void *)) { (void)d; *k = 0; return 0; }
-void *vf_pthread_getspecific(pthread_key_t k) { (void)k; return vf_tls[vf_cur_thread]; }
-int vf_pthread_setspecific(pthread_key_t k, const void *v) { (void)k; vf_tls[vf_cur_thread] = (void *)v; return 0; }
+/* Keys are distinct per pthread_key_create() call and storage is per (thread, key), so a library that created two
+ * keys by mistake loses what was stored under the first.  pthread_key_create() is a scheduling point: the harness hook
+ * vf_key_create_hook() may run another simulated thread there (pre-emption inside the library's first-use
+ * initialisation).  pthread_once() serialises: a thread that would have to wait for an initialisation in progress cannot
+ * proceed in this nested model, that schedule is infeasible (assume false). */
+#define VF_NKEYS 3
+static void *vf_tls[VF_NTHREADS][VF_NKEYS];
+static int vf_once_state;            /* 0 not run, 1 in progress, 2 done */
+int vf_nkeys;
+bool vf_once_in_progress(void) { return vf_once_state == 1; }
+int vf_pthread_once(pthread_once_t *o, void (*fn)(void)) {
+    (void)o;
+    if (vf_once_state == 1) { VF_ASSUME(0); }
+    if (vf_once_state == 0) { vf_once_state = 1; fn(); vf_once_state = 2; }
+    return 0;
+}
+int vf_pthread_key_create(pthread_key_t *k, void (*d)(void *)) {
+    (void)d;
+    vf_key_create_hook();
+    VF_ASSUME(vf_nkeys < VF_NKEYS);
+    *k = (pthread_key_t)vf_nkeys++;
+    return 0;
+}
+void *vf_pthread_getspecific(pthread_key_t k) { return k < VF_NKEYS ? vf_tls[vf_cur_thread][k] : NULL; }
+int vf_pthread_setspecific(pthread_key_t k, const void *v) { if (k >= VF_NKEYS) return EINVAL; vf_tls[vf_cur_thread][k] = (void *)v; return 0; }
 /* regular expressions: every pattern compiles; matching is the relation the harness supplies */
 int vf_regcomp(regex_t *r, const char *p, int fl) { (void)r; (void)p; (void)fl; return 0; }
 int vf_regexec(const regex_t *r, const char *s, size_t n, regmatch_t *m, int fl) { (void)n; (void)m; (void)fl; return vf_match(r, s); }
